@@ -577,7 +577,7 @@ func runVer(c *engine.Ctx, prop string) {
 		depth = 6
 	}
 	name := prop + "/mem"
-	c.SpecBudget = c.Budget() / 2
+	c.SpecBudget = c.Budget() / 3
 	engine.RunSeq(c, engine.SeqSpec{Name: name, World: "mem", MaxDepth: depth,
 		New: func() (engine.Sys, error) { return newVerSys(prop, keys, bodies, maxEnt) }})
 	c.Bounds[name] = map[string]interface{}{"keys": keys, "bodies": bodies, "history_depth": depth, "max_entries_per_key": maxEnt}
@@ -586,6 +586,12 @@ func runVer(c *engine.Ctx, prop string) {
 	engine.RunSeq(c, engine.SeqSpec{Name: name1, World: "mem", MaxDepth: depth + 2,
 		New: func() (engine.Sys, error) { return newVerSys(prop, []string{"a"}, bodies, maxEnt+1) }})
 	c.Bounds[name1] = map[string]interface{}{"keys": []string{"a"}, "bodies": bodies, "history_depth": depth + 2, "max_entries_per_key": maxEnt + 1}
+	// keys that look like escapes: markers and version ids must round-trip as they are
+	richKeys := []string{"a b", "a%2Fb", "a+b"}
+	namer := prop + "/mem/rich-keys"
+	engine.RunSeq(c, engine.SeqSpec{Name: namer, World: "mem", MaxDepth: depth - 1,
+		New: func() (engine.Sys, error) { return newVerSys(prop, richKeys, []string{"A"}, 2) }})
+	c.Bounds[namer] = map[string]interface{}{"keys": richKeys, "bodies": []string{"A"}, "history_depth": depth - 1, "max_entries_per_key": 2}
 }
 
 func init() {
